@@ -5,6 +5,7 @@ Gen/ServiceTbl.lean:
                                before the fix) or under `self.dm.ast_ctx.global_ctx.get_name()` (the global context)
   LEGACY_SKIPS_DUPLICATE       EvalFunc.trigger_init skips a service name that is already in `self.trigger_service`
   LEGACY_TRACKS_AFTER_REGISTER `self.trigger_service.add(srv_name)` comes after `Function.service_register(...)` in that loop
+  SERVICE_KEY_LOWERCASED       service_register and service_remove both build `key = f"{domain}.{service}".lower()`
 """
 import ast
 
@@ -100,6 +101,21 @@ def gen_service_tbl():
         broken.append("decorator.FunctionDecoratorManager.on_func_var_deleted: shape")
     else:
         body.append(f"def DELETED_BEFORE_START_DISCARDED : Bool := {'true' if discard else 'false'}")
+    # Function.service_register / service_remove: is the key of service_cnt / service2global_ctx the lower-cased name
+    # (what Home Assistant's registry uses) or the name as written?
+    fn = parse("function.py")
+    keys = []
+    for name in ("service_register", "service_remove"):
+        f = find_func(fn, name, "Function")
+        assigns = [] if f is None else [n for n in f.body if isinstance(n, ast.Assign) and ast.unparse(n.targets[0]) == "key"]
+        keys.append(ast.unparse(assigns[0].value) if len(assigns) == 1 else None)
+    written, folded = "f'{domain}.{service}'", "f'{domain}.{service}'.lower()"
+    if keys == [folded, folded]:
+        body.append("def SERVICE_KEY_LOWERCASED : Bool := true")
+    elif keys == [written, written]:
+        body.append("def SERVICE_KEY_LOWERCASED : Bool := false")
+    else:
+        broken.append(f"function.Function.service_register/service_remove: `key = ...` shape {keys}")
     emit("ServiceTbl", "\n".join(body))
 
 
